@@ -70,7 +70,15 @@ pub enum MatcherKind {
     NoFunc,
     /// the matcher function panics when called with an accepted argument (user panic)
     FuncUserPanic,
+    /// written with the `matching!` macro: one of the fixed patterns `MACRO_MASKS[k]`
+    /// (the pattern's mask is forced to that pattern's accept set)
+    Macro(u8),
 }
+
+/// Accept sets (bit x = argument x) of the `matching!` patterns of `MatcherKind::Macro(k)`:
+/// 0: `(0) | (3)`   1: `(1) | (2) | (6)`   2: `2..=5`   3: `(x) if *x % 2 == 1`   4: `_`
+/// 5: `eq!(&4)`   6: eight alternatives `(0) | .. | (7)`   7: `(0 | 1) | (3..=5)`
+pub const MACRO_MASKS: [u8; 8] = [0b0000_1001, 0b0100_0110, 0b0011_1100, 0b1010_1010, 0xff, 0b0001_0000, 0xff, 0b0011_1011];
 
 #[derive(Clone, Debug, PartialEq, Eq, Hash, Serialize, Deserialize)]
 pub struct PatternSpec {
@@ -132,6 +140,8 @@ pub enum VerifyMode {
     Drop,
     Verify,
     Report,
+    /// `.no_verify_in_drop()` right after construction (before any clone is made), `verify()` at the end
+    ExplicitVerify,
 }
 
 #[derive(Clone, Debug, PartialEq, Eq, Hash, Serialize, Deserialize)]
